@@ -174,6 +174,43 @@ def cases(run, rng):
             compare("stmt:%s/%s/self-join-aliased" % (QNAMES[qc], name), lambda tb, third, name=name: S(tb, third)[name](), lambda: P.Table("old", alias="mgr"),
                     lambda: P.Table("new"), ctx, corr, mk_third=lambda: P.Table("old"))
             yield {"label": "stmt:%s" % name, "corr": [(e[0], [(QNAMES[qc], c, m) for _, c, m in e[1]]) + tuple(e[2:]) for e in corr], "expr": "1", "known": None, "describe": {}}
+        none_to_new(qc)
+
+
+def none_to_new(qc):
+    """replace_table(None, new) on STATEMENTS: columns written without a table get the new one; nothing else changes (in particular the statement kind)"""
+    t, new = P.Table("t"), P.Table("new")
+    F = lambda n, tb=None: T.Field(n, table=tb)  # noqa
+    builds = {
+        "select": lambda tb: qc.from_(t).select(F("a", tb), t.z).where(F("b", tb) == 1).groupby(F("c", tb)).orderby(F("d", tb)),
+        "update": lambda tb: qc.update(t).set(t.x, F("e", tb)).where(F("f", tb) == 2),
+        "delete": lambda tb: qc.from_(t).delete().where(F("g", tb) == 3),
+        "insert-select": lambda tb: qc.into(P.Table("dst")).from_(t).select(F("h", tb)).where(F("i", tb) == 4),
+        "setop": lambda tb: qc.from_(t).select(F("j", tb)).union(qc.from_(t).select(F("k", tb))),
+    }
+    ctx = ns(qc.SQL_CONTEXT)
+    from props.c17 import graph_refs
+    for name, b in builds.items():
+        lab = "stmt:%s/%s/None->new" % (QNAMES[qc], name)
+        try:
+            a = b(None)
+            before = sql(a, ctx)
+            r = a.replace_table(None, new)
+            got = sql(r, ctx)
+            after = sql(a, ctx)
+            # (whether a statement qualifies its columns is decided by call-time state - known finding C13 - so the references are read off
+            #  the object graph: every column written without a table now belongs to `new`, every other reference is as in the build over `new`)
+            refs_got, refs_exp = graph_refs(r, stop_at_statements=False), graph_refs(b(new), stop_at_statements=False)
+        except Exception as e:  # noqa
+            FAIL.append({"label": lab, "kind": "raises", "exception": type(e).__name__ + ": " + str(e)[:200]})
+            continue
+        SEEN[0] += 1
+        if refs_got != refs_exp:
+            FAIL.append({"label": lab, "kind": "reference-left-or-wrong", "got": str(sorted(map(str, refs_got[0])))[:300], "expected": str(sorted(map(str, refs_exp[0])))[:300]})
+        elif got == "" or got.split(" ")[0] != before.split(" ")[0]:
+            FAIL.append({"label": lab, "kind": "reference-left-or-wrong", "got": got, "expected": "a %s statement, as before the call" % before.split(" ")[0]})
+        elif before != after:
+            FAIL.append({"label": lab, "kind": "receiver-changed", "before": before, "after": after})
 
 
 class LazyViolations:
